@@ -481,8 +481,32 @@ impl World {
     pub fn exact_hash(&self) -> u64 {
         let mut h = 0x9999u64;
         for e in &self.events {
-            let s = format!("{:?}", e);
-            h = hash_combine(h, crate::rng::hash_bytes(s.as_bytes()));
+            let (a, b, c): (u64, u64, u64) = match e {
+                Ev::Read { cap, out_len, res } => (
+                    1 + ((*cap as u64) << 8),
+                    *out_len as u64,
+                    match res {
+                        ReadRes::Data(n) => 10 + ((*n as u64) << 8),
+                        ReadRes::Eof => 11,
+                        ReadRes::Eintr => 12,
+                        ReadRes::Hard(k) => 13 + ((*k as u64) << 8),
+                        ReadRes::AfterFault => 14,
+                    },
+                ),
+                Ev::Write { len, res } => (
+                    2,
+                    *len as u64,
+                    match res {
+                        WriteRes::Accepted(n) => 20 + ((*n as u64) << 8),
+                        WriteRes::Eintr => 21,
+                        WriteRes::Zero => 22,
+                        WriteRes::Hard(k) => 23 + ((*k as u64) << 8),
+                        WriteRes::AfterFault => 24,
+                    },
+                ),
+                Ev::Flush { ok } => (3, *ok as u64, 0),
+            };
+            h = hash_combine(hash_combine(hash_combine(h, a), b), c);
         }
         hash_combine(h, crate::rng::hash_bytes(&self.accepted))
     }
